@@ -21,7 +21,14 @@
 (*                 the read schedule taken (binds the function used to       *)
 (*                 validate the real binary to this machine)                 *)
 (*   PipeCorrect   the report satisfies Correct - the PROPERTY.  Violated by  *)
-(*                 the code as it is (D9, D13); holds with FIXRA and FIXCR.   *)
+(*                 the pre-repair model (FIXRA = FALSE: D9, kept as a        *)
+(*                 negative control of the model in ErrPosMC_d9.cfg) and by   *)
+(*                 lone-CR streams (D13, FIXCR = FALSE = the code today);     *)
+(*                 holds with FIXRA and FIXCR.  The code today is FIXRA =     *)
+(*                 TRUE (commit 8c982d6), FIXCR = FALSE: ErrPosMC_code.cfg.   *)
+(*   PipeNeverDiscarded / PipeCorrectOrD13   (code cfg) the offending byte is *)
+(*                 always inside the window; a wrong report has exactly the  *)
+(*                 D13 signature                                             *)
 (*   PipeCorrectOrKnown  ... or the scenario is in a known class (D9: the    *)
 (*                 offending position was discarded with the read-ahead;     *)
 (*                 D13: a lone CR lies in the discarded prefix)              *)
@@ -173,6 +180,10 @@ LineBaseInv == iline = LineBase(TT, ws)
 Refines == pc = "done" => rep = ReportOfView(TT, ViewPipe(TT, ValsOf(T), ErrOf(S), Bounds(hist)))
 PipeCorrect == pc = "done" => Correct(TT, ErrOf(S), Obs)
 PipeCorrectOrKnown == pc = "done" => (Correct(TT, ErrOf(S), Obs) \/ InDiscarded(CurView, ErrOf(S), N) \/ LoneCRSkipped(TT, CurView))
+\* with the repair of D9 (FIXRA, commit 8c982d6) the offending position is always inside the window, and the
+\* only way to be wrong is the D13 signature
+PipeNeverDiscarded == pc = "done" => ~InDiscarded(CurView, ErrOf(S), N)
+PipeCorrectOrD13 == pc = "done" => (Correct(TT, ErrOf(S), Obs) \/ D13Signature(TT, ErrOf(S), Obs))
 \* outside the discarded-read-ahead class a wrong report has exactly the observable signature of D13
 PipeSignature == pc = "done" => (Correct(TT, ErrOf(S), Obs) \/ InDiscarded(CurView, ErrOf(S), N) \/ D13Signature(TT, ErrOf(S), Obs))
 \* (that the code really is wrong inside these classes is what the _d9 / _d13 configurations show: TLC must find the violation)
